@@ -55,7 +55,7 @@ def trace_tail(out, n=60):
 
 
 def run_single(prop, seed, preset, want_case, schema_knobs=None, doc_knobs=None, vars_knobs=None,
-               faults_fn=None, plan_knobs=None, strict_calls=True, extra_check=None, doc_post=None, pick_op=None):
+               faults_fn=None, plan_knobs=None, strict_calls=True, extra_check=None, doc_post=None, pick_op=None, post_engine=None):
     """Generate one request, plan it with the reference executor, run it on the real engine under
     a seeded schedule and compare.  faults_fn(case, tape, fault_free_plan) -> {path: kind}."""
     tape = Tape(seed, preset)
@@ -86,9 +86,10 @@ def run_single(prop, seed, preset, want_case, schema_knobs=None, doc_knobs=None,
         engine = cook_engine(case.schema, name, cfg, sdl=case.sdl)
         out = execute_once(engine, case.text, case.op_name, case.variables, plan, tape.sub("sched"),
                            sched[0], sched[1], sched[2], root_value=plan.root_value)
+        post_viol = post_engine(engine, case, plan, tape, out) if (post_engine is not None and out.exc is None) else []
     finally:
         forget(name)
-    viol = []
+    viol = list(post_viol)
     if out.exc is not None:
         viol.append(exc_violation(out))
     else:
